@@ -115,6 +115,33 @@ pub struct Prog {
 fn id(n: &Name) -> ax::Identifier {
     ax::Identifier { name: n.n.clone(), id: n.i }
 }
+
+thread_local! {
+    /// (noise seed, occurrence counter); seed 0 = display names as generated
+    static NAME_NOISE: std::cell::Cell<(u64, u64)> = const { std::cell::Cell::new((0, 0)) };
+}
+
+/// A variable occurrence. Variables are identified by their id alone ("the name is just for
+/// pretty-printing", axcut::syntax::names); with name noise on, occurrences of one variable carry
+/// different display names.
+fn vid(n: &Name) -> ax::Identifier {
+    let (seed, k) = NAME_NOISE.with(|c| c.get());
+    if seed == 0 {
+        return id(n);
+    }
+    NAME_NOISE.with(|c| c.set((seed, k + 1)));
+    let mut z = seed ^ k.wrapping_mul(0x9E37_79B9_7F4A_7C15);
+    z = (z ^ (z >> 30)).wrapping_mul(0xBF58_476D_1CE4_E5B9);
+    z = (z ^ (z >> 27)).wrapping_mul(0x94D0_49BB_1331_11EB);
+    z ^= z >> 31;
+    let name = match z % 4 {
+        0 => n.n.clone(),
+        1 => format!("{}x", n.n),
+        2 => "q".to_string(),
+        _ => format!("n{}", (z >> 8) % 5),
+    };
+    ax::Identifier { name, id: n.i }
+}
 fn chi(c: Chi) -> ax::Chirality {
     match c {
         Chi::P => ax::Chirality::Prd,
@@ -129,7 +156,7 @@ fn ty(t: &Ty) -> ax::Ty {
     }
 }
 fn bind(b: &Bind) -> ax::ContextBinding {
-    ax::ContextBinding { var: id(&b.v), chi: chi(b.chi), ty: ty(&b.ty) }
+    ax::ContextBinding { var: vid(&b.v), chi: chi(b.chi), ty: ty(&b.ty) }
 }
 fn ctx(bs: &[Bind]) -> ax::TypingContext {
     ax::TypingContext { bindings: bs.iter().map(bind).collect() }
@@ -141,13 +168,13 @@ fn clause(c: &Clause) -> axs::Clause {
 pub fn stmt(s: &Stmt) -> ax::Statement {
     match s {
         Stmt::Subst { map, next } => axs::Substitute {
-            rearrange: map.iter().map(|(b, o)| (bind(b), id(o))).collect(),
+            rearrange: map.iter().map(|(b, o)| (bind(b), vid(o))).collect(),
             next: Rc::new(stmt(next)),
         }
         .into(),
         Stmt::Call { label, args } => axs::Call { label: id(label), args: ctx(args) }.into(),
         Stmt::Let { var, ty: t, tag, args, next } => axs::Let {
-            var: id(var),
+            var: vid(var),
             ty: ty(t),
             tag: id(tag),
             args: ctx(args),
@@ -156,14 +183,14 @@ pub fn stmt(s: &Stmt) -> ax::Statement {
         }
         .into(),
         Stmt::Switch { var, ty: t, clauses } => axs::Switch {
-            var: id(var),
+            var: vid(var),
             ty: ty(t),
             clauses: clauses.iter().map(clause).collect(),
             free_vars_clauses: None,
         }
         .into(),
         Stmt::Create { var, ty: t, env, clauses, next } => axs::Create {
-            var: id(var),
+            var: vid(var),
             ty: ty(t),
             context: Some(ctx(env)),
             clauses: clauses.iter().map(clause).collect(),
@@ -173,17 +200,17 @@ pub fn stmt(s: &Stmt) -> ax::Statement {
         }
         .into(),
         Stmt::Invoke { var, tag, ty: t, args } => {
-            axs::Invoke { var: id(var), tag: id(tag), ty: ty(t), args: ctx(args) }.into()
+            axs::Invoke { var: vid(var), tag: id(tag), ty: ty(t), args: ctx(args) }.into()
         }
         Stmt::Lit { lit, var, next } => axs::Literal {
             lit: *lit,
-            var: id(var),
+            var: vid(var),
             next: Rc::new(stmt(next)),
             free_vars_next: None,
         }
         .into(),
         Stmt::Op { fst, op, snd, var, next } => axs::Op {
-            fst: id(fst),
+            fst: vid(fst),
             op: match op {
                 BinOp::Div => ax::BinOp::Div,
                 BinOp::Prod => ax::BinOp::Prod,
@@ -191,15 +218,15 @@ pub fn stmt(s: &Stmt) -> ax::Statement {
                 BinOp::Sum => ax::BinOp::Sum,
                 BinOp::Sub => ax::BinOp::Sub,
             },
-            snd: id(snd),
-            var: id(var),
+            snd: vid(snd),
+            var: vid(var),
             next: Rc::new(stmt(next)),
             free_vars_next: None,
         }
         .into(),
         Stmt::Print { newline, var, next } => axs::PrintI64 {
             newline: *newline,
-            var: id(var),
+            var: vid(var),
             next: Rc::new(stmt(next)),
             free_vars_next: None,
         }
@@ -213,14 +240,22 @@ pub fn stmt(s: &Stmt) -> ax::Statement {
                 IfSort::Gt => axs::ifc::IfSort::Greater,
                 IfSort::Ge => axs::ifc::IfSort::GreaterOrEqual,
             },
-            fst: id(fst),
-            snd: snd.as_ref().map(id),
+            fst: vid(fst),
+            snd: snd.as_ref().map(vid),
             thenc: Rc::new(stmt(thenc)),
             elsec: Rc::new(stmt(elsec)),
         }
         .into(),
-        Stmt::Exit { var } => axs::Exit { var: id(var) }.into(),
+        Stmt::Exit { var } => axs::Exit { var: vid(var) }.into(),
     }
+}
+
+/// `noise` != 0: every variable occurrence gets a display name drawn from a stream seeded with it
+pub fn to_axcut_noisy(p: &Prog, noise: u64) -> ax::Prog {
+    NAME_NOISE.with(|c| c.set((noise, 0)));
+    let r = to_axcut(p);
+    NAME_NOISE.with(|c| c.set((0, 0)));
+    r
 }
 
 pub fn to_axcut(p: &Prog) -> ax::Prog {
